@@ -9,7 +9,7 @@ func init() {
 		Bounds:      map[string]any{"quick": "collections of ≤ 3 elements, integers of ≤ 3 decimal digits in text form", "thorough": "same"},
 		specs: func(tier string) []specRef {
 			return []specRef{
-				hsx(rootPkg, "VerifC16_scalars", nil, 1000000, 900, "int", "bool", "string", "slices", "maps", "zscores", "structured"),
+				hsx(rootPkg, "VerifC16_scalars", nil, 1000000, 900, "int", "int63", "uint64", "neguint", "bool", "string", "slices", "maps", "zscores", "structured"),
 				hsx(rootPkg, "VerifC16_structured", nil, 1000000, 900, "xread", "ftsearch", "geo", "misc", "toany"),
 			}
 		},
